@@ -128,9 +128,15 @@ func splitHarnessChecks(cs []string) map[string][]string {
 
 // searchWitness looks for a concrete input on which the real code violates the property's oracle.
 func searchWitness(e *Engine, res *checkResult, o *Obligation, seed int) map[string]interface{} {
-	checks := harnessChecksFor[o.Func]
-	if extra, ok := propHarness[res.prop.ID]; ok && len(checks) == 0 {
+	var checks []string
+	if extra, ok := propHarness[res.prop.ID]; ok {
 		checks = extra[o.Func]
+		if len(checks) == 0 {
+			checks = extra["*"]
+		}
+	}
+	if len(checks) == 0 {
+		checks = harnessChecksFor[o.Func]
 	}
 	if len(checks) == 0 {
 		return nil
@@ -169,7 +175,16 @@ func searchWitness(e *Engine, res *checkResult, o *Obligation, seed int) map[str
 	return out
 }
 
-var propHarness = map[string]map[string][]string{}
+// property-specific replay oracles (by function; "*" = any function of the property)
+var propHarness = map[string]map[string][]string{
+	"C07": {"*": {"detect:fast-vs-seq"}},
+	"C08": {"*": {"detect:fast-vs-seq"}},
+	"C09": {"*": {"detect:failing-source"}},
+	"C10": {"*": {"detect:chunking"}},
+	"C11": {"*": {"detect:single-detect"}},
+	"C12": {"detect.Threshold": {"detect:threshold-exhaustive"}, "detect.ThresholdQ": {"detect:thresholdq-perm"}, "*": {"detect:thresholdq-perm"}},
+	"C14": {"*": {"detect:stuck-at"}},
+}
 
 func rerunWitness(rp map[string]interface{}) (string, int) {
 	pkg, _ := rp["package"].(string)
